@@ -61,3 +61,6 @@ SPEC = {'id': 'C19',
                  'the sketch is exact for the set sizes checked (no two masked values share a sparse-index cell)']}
 
 SPEC['thorough_passes'] = 2  # the thorough tier runs the whole harness under this many consecutive seeds
+
+SPEC['rule'] += (' ' +
+    'Added after rounds four and five: zoned link-local addresses; explicitly empty (accept-all) relay patterns; the glue between the poll handler and the distinct-IP journal (addresses that poll again in later chunks of the same period).')
